@@ -143,6 +143,8 @@ package cty
 //
 //@ func (cty.Value).ElementIterator
 //@   trusted
+//@   requires (wf_deep val)
+//@   panics (or (is_marked val) (not (is_known val)) (is_null val) (not (or (is_list_ty (vty val)) (is_set_ty (vty val)) (is_map_ty (vty val)) (is_tuple_ty (vty val)) (is_obj_ty (vty val)))))
 //@   ensures (and (not (= result nil.Any)) (= (it_coll result) val))
 //
 //@ func (cty.ElementIterator).Next
@@ -221,3 +223,6 @@ package cty
 //@ func (cty.Value).IsWhollyKnown
 //@   trusted
 //@   ensures (= result (wholly_known val))
+// (assumed as well) a wholly known value is known; a known primitive, capsule or null value is wholly known
+//@   ensures (=> result (is_known val))
+//@   ensures (=> (and (is_known val) (or (is_null val) (is_prim_ty (vty val)) (is_capsule_ty (vty val)))) result)
